@@ -88,7 +88,8 @@ def run(chk, replay):
         "how the child's output is cut into Write calls is not controlled: the theorems hold for every chunking; where the model predicts an unflushed "
         "residue the run is compared as 'prefix, fewer than 4096 bytes missing'",
         "the teardown/setup race of the agent path (old worker's deferred teardown vs the next attempt's setup) is below the model's granularity",
-        "with `output:` the cases stay at or below 100000 bytes (the captured text becomes one environment string; 128 KiB = E2BIG)"]
+        "with `output:` the matrix cases stay at or below 100000 bytes (the captured text becomes one environment string; 128 KiB = E2BIG "
+        "for every LATER exec); single-step `output:` cases of 150000 bytes .. 1 MiB run in a process of their own"]
     common.lean_obligations(chk, "BdModel/Props/C12.lean", TIE)
     binp, out = common.build_harness("log")
     if not binp:
@@ -122,6 +123,16 @@ def run(chk, replay):
                     cases.append(dict(cfg0, id="l%d" % k, limit=LIMIT, fails=fails, attempts=atts, done=True, slow_ms=150, last_sleep_ms=450,
                                       stream="slow:" + stream, size=n, timeout=120))
                     k += 1
+        # `output:` with MORE than the matrix cap: a single step, nothing runs afterwards, so the size of the captured value (one
+        # environment string, E2BIG from 128 KiB on) is irrelevant for THIS step's log.  Each of these cases runs in a harness
+        # process of its own (Execute exports the value into the process environment, which would break every later exec there).
+        for cfg0 in ({"so": False, "se": False, "ou": True, "sc": False}, {"so": True, "se": False, "ou": True, "sc": False},
+                     {"so": False, "se": True, "ou": True, "sc": True}):
+            for n in ([150000, 300000] if quick else [131071, 131072, 150000, 229376, 300000, 1 << 20]):
+                stream = "stdout" if cfg0["se"] or n % 3 == 0 else rng.choice(["stdout", "both"])
+                cases.append(dict(cfg0, id="l%d" % k, limit=0, fails=0, attempts=[segs_for(rng, stream, n)], done=False,
+                                  stream="bigout:" + stream, size=n, timeout=120, alone=True))
+                k += 1
         cfgs = [{"so": bool(a), "se": bool(b), "ou": bool(c), "sc": bool(d)} for a in (0, 1) for b in (0, 1) for c in (0, 1) for d in (0, 1)]
         sizes = list(SIZES_Q) + ([1 << 20] if not quick else [])
         for cfg in cfgs:
@@ -141,14 +152,20 @@ def run(chk, replay):
                         cases.append(dict(cfg, id="l%d" % k, limit=LIMIT, fails=fails, attempts=atts, done=rng.random() < 0.3, stream=stream, size=n,
                                           timeout=120))
                         k += 1
-    hin = "\n".join(json.dumps(c) for c in cases) + "\n"
-    p = subprocess.run([binp], input=hin, stdout=subprocess.PIPE, stderr=subprocess.PIPE, text=True, timeout=3000)
-    if p.returncode != 0:
-        chk.oblige("harness-run:log", False, p.stderr[-2000:]); return
+    hin = "\n".join(json.dumps(c) for c in cases if not c.get("alone")) + "\n"
     res = {}
-    for l in p.stdout.strip().split("\n"):
-        if l.strip():
-            r = json.loads(l); res[r["id"]] = r
+    if hin.strip():
+        p = subprocess.run([binp], input=hin, stdout=subprocess.PIPE, stderr=subprocess.PIPE, text=True, timeout=3000)
+        if p.returncode != 0:
+            chk.oblige("harness-run:log", False, p.stderr[-2000:]); return
+        for l in p.stdout.strip().split("\n"):
+            if l.strip():
+                r = json.loads(l); res[r["id"]] = r
+    for c in cases:
+        if c.get("alone"):
+            p1 = subprocess.run([binp], input=json.dumps(c) + "\n", stdout=subprocess.PIPE, stderr=subprocess.PIPE, text=True, timeout=600)
+            if p1.returncode == 0 and p1.stdout.strip():
+                r = json.loads(p1.stdout.strip().split("\n")[-1]); res[r["id"]] = r
     # Timing-sensitive: a run that did not make the attempts the case describes (before fix 80fb8fd the scheduling loop could
     # relaunch a retried node before the previous worker's teardown, which then closed the NEW attempt's files and removed its
     # script: a phantom failed attempt) is re-run alone before anything counts; the number of re-runs is in the statistics.
